@@ -3,6 +3,8 @@ from rulelib import *
 from facts import op_int, op_local, op_place
 import C02
 
+THOROUGH_CFGS = ('min_none', 'min_rten', 'min_onnx')   # reduced-feature builds of the rten crate (thorough tier)
+
 EXPLANATION = (
     "Capture ownership, decided on the executor and the control-flow operators: (by-value) a parent value is moved into a "
     "subgraph only through the refcount(id) == 1 guarded take, and only for dependencies that are not also direct inputs "
